@@ -32,6 +32,8 @@ DESIGNED = [
     {"hermitian": True, "sizes": [2, 1, 3], "masks": {2: [(0, 2)], 0: [(0, 1)]}, "order": [2, 0]},    # keys 0 and 2, inserted in reverse
     {"hermitian": False, "sizes": [1, 3], "masks": {1: [(0, 2), (2, 0), (1, 0)]}, "order": [1]},
     {"hermitian": True, "sizes": [3, 2], "masks": {0: [(0, 1)], 1: []}, "order": [1, 0]},             # an empty mask next to a partial one
+    {"hermitian": True, "sizes": [2, 2], "E": [0, 0, 2, 5], "fd_tuple": [0]},                        # an identically zero H_0 block, fully diagonalised
+    {"hermitian": False, "sizes": [2, 1, 2], "E": [0, 0, 3, 7, 7], "fd_tuple": [0, 2]},              # a zero block and a degenerate one, both fully diagonalised
 ]
 
 def gen_problem(rnd, hermitian=True, force=None):
@@ -50,6 +52,7 @@ def gen_problem(rnd, hermitian=True, force=None):
     if force:
         E = []
         for b, s_ in enumerate(sizes): E += [Fraction(offset + 5 * b + x + 1, 1) for x in rnd.sample(range(4), s_)]   # distinct inside a block
+    if force and "E" in force: E = [Fraction(e) for e in force["E"]]
     if all(e == 0 for e in E): E[0] = Fraction(1)
     # non-Hermitian mode: the unperturbed energies may be complex
     cE = (not hermitian) and rnd.random() < 0.4
@@ -76,6 +79,8 @@ def gen_problem(rnd, hermitian=True, force=None):
     for s in sizes: off.append(off[-1] + s)
     if mode == "tuple":
         bl = [b for b in range(N) if rnd.random() < 0.6]; fd = {"kind": "tuple", "blocks": bl}; fd_py = tuple(bl)
+    elif mode == "designed" and "fd_tuple" in force:
+        fd = {"kind": "tuple", "blocks": list(force["fd_tuple"])}; fd_py = tuple(force["fd_tuple"])
     elif mode == "designed":
         masks = []; fd_py = {}
         for b in force["order"]:
